@@ -23,10 +23,15 @@ type rlCfg struct {
 	maxSize    int64
 	maxBackups int
 	pre        string // none old1 mixed3 foreign
+	spell      string // how the caller spells the log file's path: "" (clean), "dot" (dir/./app.log), "slash2" (dir//app.log)
 }
 
 func (c rlCfg) String() string {
-	return fmt.Sprintf("rule=%s/days=%d/gzip=%v/delim=%s/max=%d/backups=%d/pre=%s", c.rule, c.days, c.gzip, c.delim, c.maxSize, c.maxBackups, c.pre)
+	sp := ""
+	if c.spell != "" {
+		sp = "/path=" + c.spell
+	}
+	return fmt.Sprintf("rule=%s/days=%d/gzip=%v/delim=%s/max=%d/backups=%d/pre=%s%s", c.rule, c.days, c.gzip, c.delim, c.maxSize, c.maxBackups, c.pre, sp)
 }
 
 type rlBackup struct {
@@ -112,18 +117,29 @@ func newRlSys(r *vrt.Run, c rlCfg) *rlSys {
 
 // open creates the logger on the (possibly already existing) current file, as a process
 // start would.
+// spelled is the log file's path as the caller writes it (the same file as s.file).
+func (s *rlSys) spelled() string {
+	switch s.cfg.spell {
+	case "dot":
+		return s.dir + "/./app.log"
+	case "slash2":
+		return s.dir + "//app.log"
+	}
+	return s.file
+}
+
 func (s *rlSys) open() {
 	c := s.cfg
 	var rule RotateRule
 	if c.rule == "daily" {
-		rule = DefaultRotateRule(s.file, c.delim, c.days, c.gzip)
+		rule = DefaultRotateRule(s.spelled(), c.delim, c.days, c.gzip)
 	} else {
 		rule = &SizeLimitRotateRule{
-			DailyRotateRule: DailyRotateRule{rotatedTime: getNowDateInRFC3339Format(), filename: s.file, delimiter: c.delim, days: c.days, gzip: c.gzip},
+			DailyRotateRule: DailyRotateRule{rotatedTime: getNowDateInRFC3339Format(), filename: s.spelled(), delimiter: c.delim, days: c.days, gzip: c.gzip},
 			maxSize:         c.maxSize, maxBackups: c.maxBackups,
 		}
 	}
-	l, err := NewLogger(s.file, rule, c.gzip)
+	l, err := NewLogger(s.spelled(), rule, c.gzip)
 	if err != nil {
 		s.r.Failf("NewLogger: %v", err)
 	}
@@ -359,6 +375,13 @@ func TestVerifRotateLogger(t *testing.T) {
 		cfgs = append(cfgs, rlCfg{rule: "size", days: 1, gzip: false, delim: delim, maxSize: 10, maxBackups: 0, pre: "foreign"},
 			rlCfg{rule: "size", days: 1, gzip: delim == ".", delim: delim, maxSize: 10, maxBackups: 2, pre: "mixed3"},
 			rlCfg{rule: "daily", days: 1, gzip: false, delim: delim, pre: "mixed3"})
+	}
+	// the log file's path spelled in a non-canonical way by the caller (file-name globbing
+	// returns cleaned paths: whatever is compared with them must be cleaned too)
+	for _, spell := range []string{"dot", "slash2"} {
+		cfgs = append(cfgs, rlCfg{rule: "size", days: 0, gzip: false, delim: "", maxSize: 10, maxBackups: 2, pre: "none", spell: spell},
+			rlCfg{rule: "size", days: 1, gzip: false, delim: "-", maxSize: 10, maxBackups: 1, pre: "mixed3", spell: spell},
+			rlCfg{rule: "daily", days: 1, gzip: false, delim: "", pre: "none", spell: spell})
 	}
 	depth := 5
 	if vrt.Thorough() {
